@@ -102,7 +102,7 @@ def rule_a(repo, chk):
         par = getattr(c, '_parent', None)
         in_with = isinstance(par, ast.withitem)
         chk.ob('C15.a', in_with, c, 'execution_allowed is used as a context manager (its pop runs in finally)')
-    chk.floor('C15.a', k, 4, '(execution_allowed sites)')
+    chk.floor('C15.a', k, 2, '(execution_allowed sites)')
     for c in sites:
         f = repo.enclosing_func(c)
         w = [x for x in own_nodes(f) if isinstance(x, ast.With) and any(i.context_expr is c for i in x.items)]
